@@ -13,7 +13,7 @@ from .vals import PyVal
 from .state import State, Heap, fresh, FAM_SORT
 from . import builtins_model as bm
 
-sys.setrecursionlimit(20000)
+sys.setrecursionlimit(400000)
 
 
 class EngineError(Exception):
